@@ -1,24 +1,24 @@
-(* Model of crawler/crawler.go, DefaultCrawler.Run (lines 192-285): the work
+(* Model of crawler/crawler.go, DefaultCrawler.Run (lines 192-289): the work
    list of the main loop.  Definitions only; lemmas in Proofs/CrawlerProofs.v.
 
    Abstraction.
    - A peer is a number.  What a worker brings back for peer p
-     ([queryPeer], lines 293-333: connect, sixteen FIND_NODE requests, answers
+     ([queryPeer], lines 297-337: connect, sixteen FIND_NODE requests, answers
      merged in a map) is [net p]: the keys of [res.data].  It is [[]] when the
      connect or any request failed, and also when every answer was empty: the
-     loop tests [len(res.data) > 0] (line 255) and treats both alike.
-     A peer asked twice is assumed to answer the same; the theorems that need
-     it say so through [NoDup] hypotheses.
+     loop tests [len(res.data) > 0] (line 259) and treats both alike.
+     No peer is asked twice (CrawlerProofs.crawl_once), so one answer per
+     peer is all there is.
    - The private address book ([peerAddrs], [RemoveSourceAndAddPeers]) only
      supplies dial addresses to the workers; it never influences which peers
      are queried and is not modelled.
    - Go iterates [res.data] in map order; [net p] is that order.  The theorems
      hold for every [net], hence for every order.
    - The worker pool is abstracted to its observable effect on the main loop:
-     a job can be handed over ([CDispatch], line 279) while fewer than
+     a job can be handed over ([CDispatch], line 283) while fewer than
      [par + 1] jobs are outstanding (one in the channel buffer, one per
      worker), and the result of any outstanding job can arrive ([CResult i],
-     line 254) provided there is a worker at all.  This over-approximates the
+     line 258) provided there is a worker at all.  This over-approximates the
      real schedules (e.g. with one worker results come in FIFO order), which
      is the safe direction for theorems over all schedules. *)
 From Verif.Lib Require Import GoSem Bits.
@@ -36,13 +36,21 @@ Record cstate := {
   c_cb : list (N * bool)        (* log: every callback: (peer, true = handleSuccess) *)
 }.
 
-(* lines 217-236: a starting peer without any address (peerstore or AddrInfo)
-   is skipped; every other one is appended to toDial, duplicates included. *)
+(* lines 221-240: a starting peer without any address (peerstore or AddrInfo)
+   is skipped; one that is already in peersSeen only contributes its addresses
+   (lines 232-235); every other one is appended to toDial and marked seen. *)
+Definition dialable (seeds : list (N * bool)) : list N := map fst (filter snd seeds).
+Fixpoint uniq_acc (l acc : list N) : list N :=
+  match l with
+  | [] => acc
+  | x :: r => if cmem x acc then uniq_acc r acc else uniq_acc r (acc ++ [x])
+  end.
+Definition uniq (l : list N) : list N := uniq_acc l [].
 Definition crawl_init (seeds : list (N * bool)) : cstate :=
-  let s := map fst (filter snd seeds) in
+  let s := uniq (dialable seeds) in
   {| c_todial := s; c_seen := s; c_queried := []; c_out := []; c_disp := []; c_cb := [] |}.
 
-(* lines 259-268: peers not seen before are marked seen and appended to toDial *)
+(* lines 263-272: peers not seen before are marked seen and appended to toDial *)
 Fixpoint add_new (data seen todial : list N) : list N * list N :=
   match data with
   | [] => (seen, todial)
@@ -95,7 +103,7 @@ Fixpoint crun (net : cnet) (par : nat) (evs : list cev) (s : cstate) : option cs
   | e :: r => match cstep net par s e with Some s' => crun net par r s' | None => None end
   end.
 
-(* line 245: the loop condition is false *)
+(* line 249: the loop condition is false *)
 Definition cfinished (s : cstate) : bool :=
   match c_todial s, c_out s with [], [] => true | _, _ => false end.
 
@@ -122,4 +130,3 @@ Inductive reachable (net : cnet) (seeds : list N) : N -> Prop :=
 | reach_seed p : In p seeds -> reachable net seeds p
 | reach_step p q : reachable net seeds p -> In q (net p) -> reachable net seeds q.
 
-Definition dialable (seeds : list (N * bool)) : list N := map fst (filter snd seeds).
